@@ -77,13 +77,7 @@ class Service:
         self.sse_module_loader = None
         self.edb = None
 
-        if FileManager.check_sid_folder_exist(sid):
-            self.config = FileManager.read_service_config(sid)
-            self.service_meta = FileManager.read_service_meta(sid)
-            self._load_sse_module()
-            self._load_config_object()
-        else:  # NEW Service
-            self.service_meta = {"state": SERVICE_STATE.NOT_EXISTS}
+        self.refresh_service_state()
 
         self.recv_msg_handler = {
             MsgType.CONFIG: self.handle_upload_config,
@@ -101,6 +95,20 @@ class Service:
     @property
     def short_sid(self) -> str:
         return shorten_sid(self.sid)
+
+    def refresh_service_state(self):
+        """(Re)load the durable state of the service from disk.
+
+        Called by the constructor, and again by the services manager once this connection becomes the
+        registered one: the object may have been created while a previous connection was still changing the state.
+        """
+        if FileManager.check_sid_folder_exist(self.sid):
+            self.config = FileManager.read_service_config(self.sid)
+            self.service_meta = FileManager.read_service_meta(self.sid)
+            self._load_sse_module()
+            self._load_config_object()
+        else:  # NEW Service
+            self.service_meta = {"state": SERVICE_STATE.NOT_EXISTS}
 
     async def start(self):
         await self._recv_message()
